@@ -65,43 +65,51 @@ func staticInvariants(s *gtfs.Static, f *gen.Feed) (sig, detail string, kinds in
 	kindSeen := map[string]bool{}
 	// row lookup: exists a row with all given (column -> value) pairs; a pair whose column is absent is
 	// satisfied only by the empty value
+	// Indexed per (file, column tuple) so that large feeds stay linear.
+	index := map[string]map[string]bool{}
 	rowWith := func(file string, pairs ...string) bool {
 		if f == nil {
 			return true
 		}
-		// with duplicate member names the parser keeps the last one; accept a match in any of them
-		found := false
-		for _, tb := range f.Tables {
-			if tb.Name != file {
-				continue
-			}
-			found = true
-			for _, r := range tb.Rows {
-				ok := true
-				for i := 0; i+1 < len(pairs); i += 2 {
-					c := tb.Col(pairs[i])
-					// the parser uses the LAST column with a given name (header map): emulate by scanning from the end
-					for k := len(tb.Header) - 1; k >= 0; k-- {
-						if tb.Header[k] == pairs[i] {
-							c = k
+		sim.Beat()
+		var cols, vals []string
+		for i := 0; i+1 < len(pairs); i += 2 {
+			cols = append(cols, pairs[i])
+			vals = append(vals, pairs[i+1])
+		}
+		ik := file + "|" + strings.Join(cols, "|")
+		set, ok := index[ik]
+		if !ok {
+			set = map[string]bool{}
+			// with duplicate member names the parser keeps the last one; accept a match in any of them
+			for _, tb := range f.Tables {
+				if tb.Name != file {
+					continue
+				}
+				// the parser uses the LAST column with a given name (header map)
+				ci := make([]int, len(cols))
+				for k, cn := range cols {
+					ci[k] = -1
+					for h := len(tb.Header) - 1; h >= 0; h-- {
+						if tb.Header[h] == cn {
+							ci[k] = h
 							break
 						}
 					}
-					v := ""
-					if c >= 0 && c < len(r) {
-						v = r[c]
-					}
-					if v != pairs[i+1] {
-						ok = false
-						break
-					}
 				}
-				if ok {
-					return true
+				for _, r := range tb.Rows {
+					rv := make([]string, len(cols))
+					for k, c := range ci {
+						if c >= 0 && c < len(r) {
+							rv[k] = r[c]
+						}
+					}
+					set[strings.Join(rv, "\x00")] = true
 				}
 			}
+			index[ik] = set
 		}
-		return !found && false
+		return set[strings.Join(vals, "\x00")]
 	}
 	for i := range s.Routes {
 		r := &s.Routes[i]
